@@ -20,7 +20,7 @@ def rand_files(rng, nested=True):
     files = {}
     for fn in FILE_NAMES:
         if rng.random() < 0.55:
-            files[fn] = [rng.choice(CONTENTS), T0 + rng.choice([0, 0, 100, 200])]
+            files[fn] = [rng.choice(CONTENTS), T0 + rng.choice([0, 0, 100, 200, 100.75])]
     if rng.random() < 0.12:
         files[rng.choice(ODD_NAMES)] = [rng.choice(CONTENTS), T0 + rng.choice([0, 100])]
     if nested and rng.random() < 0.45:
@@ -69,7 +69,8 @@ def correlate(rng, src, dst):
                     if len(other) == len(content) and other != content:
                         dj["files"][fn] = [other, mt]  # same size, same mtime, different content
                 elif r < 0.55:
-                    dj["files"][fn] = [content + "-dst", mt + rng.choice([-50, 0, 50])]
+                    # older / equal / newer, by whole seconds or by a fraction of one
+                    dj["files"][fn] = [content + "-dst", mt + rng.choice([-50, 0, 50, -0.5, 0.125])]
             if sj["doc"] and rng.random() < 0.5:
                 d = copy.deepcopy(sj["doc"])
                 if rng.random() < 0.6 and isinstance(d.get("m"), dict):
